@@ -238,7 +238,7 @@ Theorem respond_w_clause_iv reqf apex cls wide recs z buf tcp id rd qname qtype 
     respond_w neg_ttl buf tcp id rd qname qtype qclass edns limit z = Some (len, b) /\
     decode_msg (firstn len b) = Some m /\
     (tc_bit m = false -> rcode_of_msg m <> 2%N ->
-     exists r, answer_rec z qname qtype tcp = Some r /\
+     exists r, (forall tcp', answer_rec z qname qtype tcp' = Some r) /\
        ResolveRepr.norm_rec r = ResolveS.resolve reqf apex cls (accepted apex cls recs) qname qtype /\
        Forall2 (rr_rel xparts) (map q2a (rc_an r)) (m_an m) /\
        Forall2 (rr_rel xparts) (map q2a (rc_ns r)) (m_ns m) /\
